@@ -14,6 +14,7 @@
 (*   wait      ... returns once a completion is visible, or at once when   *)
 (*             the timeout was shortened to zero                           *)
 (*   clear     state.swap(0)                                               *)
+(*   reload    load the tail again                                         *)
 (*   process   consume the completions; Ring::poll returns                 *)
 (* Waker steps (wpc):                                                      *)
 (*   begin     SubmissionQueue::wake is called                             *)
@@ -45,17 +46,18 @@ VARIABLES polling, awoken,   \* the two bits of PollingState
           filler,            \* queued, unconsumed other entries (they never complete)
           stale,             \* the kernel consumed entries while this waker was in Submissions::add
           cq,                \* unprocessed wake-up completions
+          seen,              \* completions visible when the poll in progress last loaded the tail
           owed,              \* ghost: a wake call started and no poll returned since
           dropped,           \* the Ring has been dropped
           late               \* ghost: this wake call started after the drop
 
-vars == <<polling, awoken, ppc, short, polls, wpc, wk, wok, sq, filler, stale, cq, owed, dropped, late>>
+vars == <<polling, awoken, ppc, short, polls, wpc, wk, wok, sq, filler, stale, cq, seen, owed, dropped, late>>
 
 Init ==
     /\ polling = FALSE /\ awoken = FALSE
     /\ ppc = "start" /\ short = FALSE /\ polls = 0
     /\ wpc = [w \in Wakers |-> "begin"] /\ wk = [w \in Wakers |-> 1] /\ wok = [w \in Wakers |-> FALSE]
-    /\ sq = 0 /\ filler = Fill /\ cq = 0 /\ owed = FALSE /\ dropped = FALSE
+    /\ sq = 0 /\ filler = Fill /\ cq = 0 /\ seen = 0 /\ owed = FALSE /\ dropped = FALSE
     /\ late = [w \in Wakers |-> FALSE]
     /\ stale = [w \in Wakers |-> FALSE]
 
@@ -63,9 +65,12 @@ Init ==
 Consumed == [w \in Wakers |-> stale[w] \/ (wpc[w] = "send" /\ sq + filler > 0)]
 
 \* ---- poller -------------------------------------------------------------------
+\* The tail is loaded: what is visible now is what this poll will process, unless it has to enter the
+\* kernel and load the tail again.
 PStart ==
     /\ ppc = "start" /\ ~dropped /\ (MaxPolls = 0 \/ polls < MaxPolls)
     /\ ppc' = IF cq > 0 THEN "process" ELSE "announce"
+    /\ seen' = cq
     /\ UNCHANGED <<polling, awoken, short, polls, wpc, wk, wok, sq, filler, stale, cq, owed, dropped, late>>
 
 PAnnounce ==
@@ -73,31 +78,39 @@ PAnnounce ==
     /\ short' = IF "IgnoreAwoken" \in Dev THEN FALSE ELSE awoken
     /\ polling' = TRUE /\ awoken' = FALSE
     /\ ppc' = "enter"
-    /\ UNCHANGED <<polls, wpc, wk, wok, sq, filler, stale, cq, owed, dropped, late>>
+    /\ UNCHANGED <<polls, wpc, wk, wok, sq, filler, stale, cq, seen, owed, dropped, late>>
 
 \* The system call first consumes what is queued (unless a kernel thread does).
 PEnter ==
     /\ ppc = "enter"
     /\ IF Mode # "sqpoll" THEN cq' = cq + sq /\ sq' = 0 /\ filler' = 0 /\ stale' = Consumed ELSE UNCHANGED <<cq, sq, filler, stale>>
     /\ ppc' = "wait"
-    /\ UNCHANGED <<polling, awoken, short, polls, wpc, wk, wok, owed, dropped, late>>
+    /\ UNCHANGED <<polling, awoken, short, polls, wpc, wk, wok, seen, owed, dropped, late>>
 
 Blocked == ppc = "wait" /\ ~short /\ cq = 0
 
+\* The system call returns.
 PWake ==
     /\ ppc = "wait" /\ ~Blocked
     /\ ppc' = "clear"
-    /\ UNCHANGED <<polling, awoken, short, polls, wpc, wk, wok, sq, filler, stale, cq, owed, dropped, late>>
+    /\ UNCHANGED <<polling, awoken, short, polls, wpc, wk, wok, sq, filler, stale, cq, seen, owed, dropped, late>>
 
 PClear ==
     /\ ppc = "clear"
     /\ polling' = FALSE /\ awoken' = FALSE
+    /\ ppc' = "reload"
+    /\ UNCHANGED <<short, polls, wpc, wk, wok, sq, filler, stale, cq, seen, owed, dropped, late>>
+
+\* After the polling bit has been cleared the tail is loaded again: that is what gets processed.
+PReload ==
+    /\ ppc = "reload"
+    /\ seen' = cq
     /\ ppc' = "process"
-    /\ UNCHANGED <<short, polls, wpc, wk, wok, sq, filler, stale, cq, owed, dropped, late>>
+    /\ UNCHANGED <<polling, awoken, short, polls, wpc, wk, wok, sq, filler, stale, cq, owed, dropped, late>>
 
 PProcess ==
     /\ ppc = "process"
-    /\ cq' = 0 /\ owed' = FALSE
+    /\ cq' = cq - seen /\ seen' = 0 /\ owed' = FALSE    \* completions published after the tail was loaded stay for the next poll
     /\ polls' = IF MaxPolls = 0 THEN 0 ELSE polls + 1
     /\ ppc' = "start"
     /\ UNCHANGED <<polling, awoken, short, wpc, wk, wok, sq, filler, stale, dropped, late>>
@@ -105,9 +118,9 @@ PProcess ==
 PDrop ==
     /\ ppc = "start" /\ MaxPolls > 0 /\ polls = MaxPolls /\ ~dropped
     /\ dropped' = TRUE /\ ppc' = "done"
-    /\ UNCHANGED <<polling, awoken, short, polls, wpc, wk, wok, sq, filler, stale, cq, owed, late>>
+    /\ UNCHANGED <<polling, awoken, short, polls, wpc, wk, wok, sq, filler, stale, cq, seen, owed, late>>
 
-PStep == PStart \/ PAnnounce \/ PEnter \/ PWake \/ PClear \/ PProcess \/ PDrop
+PStep == PStart \/ PAnnounce \/ PEnter \/ PWake \/ PClear \/ PReload \/ PProcess \/ PDrop
 
 \* ---- wakers -------------------------------------------------------------------
 Finished(w) == IF wk[w] < WakesPer THEN "begin" ELSE "done"
@@ -118,7 +131,7 @@ WBegin(w) ==
     /\ owed' = (owed \/ ~dropped)   \* waking a dropped ring owes nothing
     /\ late' = [late EXCEPT ![w] = dropped]
     /\ wpc' = [wpc EXCEPT ![w] = "fetch"]
-    /\ UNCHANGED <<polling, awoken, ppc, short, polls, wk, wok, sq, filler, stale, cq, dropped>>
+    /\ UNCHANGED <<polling, awoken, ppc, short, polls, wk, wok, sq, filler, stale, cq, seen, dropped>>
 
 WFetch(w) ==
     /\ wpc[w] = "fetch"
@@ -128,7 +141,7 @@ WFetch(w) ==
        /\ wpc' = [wpc EXCEPT ![w] = next]
        /\ wk' = BumpIfFinished(w, next)
     /\ stale' = [stale EXCEPT ![w] = FALSE]
-    /\ UNCHANGED <<polling, ppc, short, polls, wok, sq, filler, cq, owed, dropped, late>>
+    /\ UNCHANGED <<polling, ppc, short, polls, wok, sq, filler, cq, seen, owed, dropped, late>>
 
 \* Submissions::add: succeeds only if there is room; reports a full queue when
 \* it is full -- or when it was full when the head was loaded and the kernel
@@ -138,21 +151,21 @@ WSendOk(w) ==
     /\ sq + filler < SQN
     /\ sq' = sq + 1 /\ wok' = [wok EXCEPT ![w] = TRUE]
     /\ wpc' = [wpc EXCEPT ![w] = "submit"]
-    /\ UNCHANGED <<polling, awoken, ppc, short, polls, wk, filler, stale, cq, owed, dropped, late>>
+    /\ UNCHANGED <<polling, awoken, ppc, short, polls, wk, filler, stale, cq, seen, owed, dropped, late>>
 
 WSendFull(w) ==
     /\ wpc[w] = "send" /\ Mode # "single"
     /\ sq + filler >= SQN \/ stale[w]
     /\ wok' = [wok EXCEPT ![w] = FALSE]
     /\ wpc' = [wpc EXCEPT ![w] = "submit"]
-    /\ UNCHANGED <<polling, awoken, ppc, short, polls, wk, sq, filler, stale, cq, owed, dropped, late>>
+    /\ UNCHANGED <<polling, awoken, ppc, short, polls, wk, sq, filler, stale, cq, seen, owed, dropped, late>>
 
 \* Single issuer: the message is sent with a synchronous system call.
 WSendSync(w) ==
     /\ wpc[w] = "send" /\ Mode = "single"
     /\ cq' = cq + 1
     /\ wpc' = [wpc EXCEPT ![w] = Finished(w)] /\ wk' = BumpIfFinished(w, Finished(w))
-    /\ UNCHANGED <<polling, awoken, ppc, short, polls, wok, sq, filler, stale, owed, dropped, late>>
+    /\ UNCHANGED <<polling, awoken, ppc, short, polls, wok, sq, filler, stale, seen, owed, dropped, late>>
 
 WSend(w) == WSendOk(w) \/ WSendFull(w) \/ WSendSync(w)
 
@@ -164,7 +177,7 @@ WSubmit(w) ==
        /\ wk' = BumpIfFinished(w, next)
        \* entering add again starts with a fresh load of the head
        /\ stale' = [w2 \in Wakers |-> IF w2 = w THEN FALSE ELSE IF Mode # "sqpoll" THEN Consumed[w2] ELSE stale[w2]]
-    /\ UNCHANGED <<polling, awoken, ppc, short, polls, wok, owed, dropped, late>>
+    /\ UNCHANGED <<polling, awoken, ppc, short, polls, wok, seen, owed, dropped, late>>
 
 WStep(w) == WBegin(w) \/ WFetch(w) \/ WSend(w) \/ WSubmit(w)
 
@@ -176,7 +189,7 @@ KConsume ==
        THEN filler' = filler - 1 /\ UNCHANGED <<sq, cq>>
        ELSE sq' = sq - 1 /\ cq' = cq + 1 /\ filler' = filler
     /\ stale' = Consumed
-    /\ UNCHANGED <<polling, awoken, ppc, short, polls, wpc, wk, wok, owed, dropped, late>>
+    /\ UNCHANGED <<polling, awoken, ppc, short, polls, wpc, wk, wok, seen, owed, dropped, late>>
 
 Next == PStep \/ (\E w \in Wakers : WStep(w)) \/ KConsume
 
@@ -186,9 +199,9 @@ FairSpec == Spec /\ WF_vars(PStep) /\ (\A w \in Wakers : WF_vars(WStep(w))) /\ W
 \* ---- properties (C11) -----------------------------------------------------------
 TypeOK ==
     /\ polling \in BOOLEAN /\ awoken \in BOOLEAN /\ short \in BOOLEAN /\ owed \in BOOLEAN /\ dropped \in BOOLEAN
-    /\ ppc \in {"start", "announce", "enter", "wait", "clear", "process", "done"}
+    /\ ppc \in {"start", "announce", "enter", "wait", "clear", "reload", "process", "done"}
     /\ \A w \in Wakers : wpc[w] \in {"begin", "fetch", "send", "submit", "done"}
-    /\ sq \in 0..SQN /\ filler \in 0..SQN /\ sq + filler <= SQN /\ cq \in Nat
+    /\ sq \in 0..SQN /\ filler \in 0..SQN /\ sq + filler <= SQN /\ cq \in Nat /\ seen \in 0..cq
 
 WakersQuiet == \A w \in Wakers : wpc[w] = "done"
 
